@@ -172,6 +172,8 @@ class Generator:
             rng = self.src.impl_block(r'^impl<const MIN_ALIGN: usize> Iterator for ChunkRawIter<')
         elif impl == 'drop':
             rng = self.src.impl_block(r'^impl<const MIN_ALIGN: usize> Drop for Bump<MIN_ALIGN>$')
+        elif impl == 'rawvec':
+            rng = self.src.impl_block_containing(r"^impl<'a, T> RawVec<'a, T>$", src_name)
         elif impl == 'free':
             rng = None
         else:
@@ -226,6 +228,27 @@ class Generator:
         """region = 'arm:Err(e)'  -> the block of the match arm `Err(e) => unsafe { ... }` up to (not including) the
         final expression statement that starts with `Err(`.  Returned as a `{ ... }` block."""
         kind, _, what = region.partition(':')
+        if kind == 'stmt':
+            # region = 'stmt:let layout|TAIL' -> the single statement starting with the anchor, wrapped as `{ STATEMENT TAIL }`
+            anchor, _, tail = what.partition('|')
+            anchor = anchor.replace('_', ' ')
+            m = mask(body)
+            k = m.find(anchor + ' =')
+            if k < 0:
+                raise ExtractError('region anchor %r not found' % anchor)
+            if m.find(anchor + ' =', k + 1) >= 0:
+                raise ExtractError('region anchor %r is ambiguous' % anchor)
+            depth, e = 0, k
+            while True:
+                ch = m[e]
+                if ch in '({[':
+                    depth += 1
+                elif ch in ')}]':
+                    depth -= 1
+                elif ch == ';' and depth == 0:
+                    break
+                e += 1
+            return '{\n        ' + body[k:e + 1] + '\n        ' + tail + '\n    }'
         if kind != 'arm':
             raise ExtractError('unknown region kind')
         m = mask(body)
@@ -365,8 +388,10 @@ class Generator:
 
     def generate(self):
         lines, specs = self.parse_template()
-        structs = self.gen_structs()
-        setters = self.gen_footer_setters()
+        self.footer_fields, self.bump_cells = [], []
+        has_structs = any(l.startswith('//@structs') for l in lines)
+        structs = self.gen_structs() if has_structs else ''
+        setters = self.gen_footer_setters() if has_structs else ''
         prelude = open(os.path.join(HERE, 'prelude.rs')).read()
         out = []
 
